@@ -93,13 +93,13 @@ static bytes write_image(const Plan &p, const Model<Idx,V> &M, std::vector<size_
     } else if (fmt == BIN_CRS) {
         std::ofstream o(f.path.c_str(), std::ios::binary);
         size_t n = (size_t)M.n; amgcl::io::write(o, n);
-        if (!M.ptr.empty()) o.write((const char*)M.ptr.data(), sizeof(Idx) * M.ptr.size());
-        if (!M.col.empty()) o.write((const char*)M.col.data(), sizeof(Idx) * M.col.size());
-        if (!M.val.empty()) o.write((const char*)M.val.data(), sizeof(V) * M.val.size());
+        if (!M.ptr.empty()) amgcl::io::write(o, M.ptr);      // the library's own vector writer
+        if (!M.col.empty()) amgcl::io::write(o, M.col);
+        if (!M.val.empty()) amgcl::io::write(o, M.val);
     } else {
         std::ofstream o(f.path.c_str(), std::ios::binary);
         size_t n = (size_t)M.n, m = (size_t)M.m; amgcl::io::write(o, n); amgcl::io::write(o, m);
-        if (!M.dense.empty()) o.write((const char*)M.dense.data(), sizeof(V) * M.dense.size());
+        if (!M.dense.empty()) amgcl::io::write(o, M.dense);
     }
     bytes b = f.get();
     if (data_line_starts && (fmt == MM_SPARSE || fmt == MM_DENSE)) {
@@ -227,6 +227,16 @@ static void run_typed(const Plan &p, Result &res) {
         ReadOut<Idx,V> part = read_image<Idx,V,V>(fmt, img, a, b);
         e = compare_model(fmt, M, part, a, b);
         if (!e.empty()) res.fail(sig("roundtrip-bitwise", "row-range", cm::fmt("[%ld,%ld): ", a, b) + e));
+        // size / kind queries on the same image
+        try {
+            simfs::MemFile hf(img);
+            if (fmt == BIN_CRS) { size_t n1 = amgcl::io::crs_size<size_t>(hf.path); if ((long)n1 != M.n) res.fail(sig("roundtrip-bitwise", "crs_size", cm::fmt("crs_size %zu, written %ld", n1, M.n))); }
+            else if (fmt == BIN_DENSE) { size_t n1 = 0, m1 = 0; amgcl::io::dense_size(hf.path, n1, m1); if ((long)n1 != M.n || (long)m1 != M.m) res.fail(sig("roundtrip-bitwise", "dense_size", cm::fmt("dense_size %zu x %zu, written %ld x %ld", n1, m1, M.n, M.m))); }
+            else { amgcl::io::mm_reader rd(hf.path);
+                bool sparse = fmt == MM_SPARSE, cplx = amgcl::is_complex<V>::value, integer = std::is_integral<V>::value;
+                if (rd.is_sparse() != sparse || rd.is_complex() != cplx || rd.is_integer() != integer || rd.is_symmetric() != (p.get("symmetric") != 0 && sparse) || (long)rd.rows() != M.n || (long)rd.cols() != M.m)
+                    res.fail(sig("roundtrip-bitwise", "header-queries", cm::fmt("reader reports sparse=%d complex=%d integer=%d symmetric=%d %zu x %zu for a %s %s file of %ld x %ld", (int)rd.is_sparse(), (int)rd.is_complex(), (int)rd.is_integer(), (int)rd.is_symmetric(), rd.rows(), rd.cols(), sparse ? "coordinate" : "array", mm_kind<V>(), M.n, M.m))); }
+        } catch (const std::exception &e) { res.fail(sig("roundtrip-bitwise", "header-queries", std::string("threw on a valid file: ") + e.what())); }
         res.counts["roundtrip_reads"] += 2;
         res.nontrivial = M.n > 0 && (fmt == MM_DENSE || fmt == BIN_DENSE ? M.m > 0 : !M.col.empty());
         return;
